@@ -202,7 +202,7 @@ class CamModel:
         return ("cam", w.last_n, w.ref.last_lf_ms == w.ref.last_cam_ms and w.last_n > 0, w.cam_tm.t_gen_cam, w.cut)
 
     def share(self, w):
-        return F.shared_objects()
+        return F.shared_objects(w)
 
 
 def mk_cam(*a):
@@ -306,7 +306,7 @@ class VamModel:
         return ("vam", w.last_n, w.ref.last_lf_ms == w.ref.last_vam_ms and w.last_n > 0, w.cut)
 
     def share(self, w):
-        return F.shared_objects()
+        return F.shared_objects(w)
 
 
 def mk_vam(*a):
